@@ -9,6 +9,13 @@ From OIDC Require Export Lib C02_Jws C01_Verifier C02_Verifiers C02_Ground.
 (* one call in a sequence on a reused verifier *)
 Record vstep := mkVStep { vs_tok : token; vs_mid : middle; vs_now0 : Z; vs_now1 : Z }.
 
+(* one verification on a multi-tenant provider: the issuer found in the call's
+   context and the keys the storage holds for THAT issuer *)
+Record tcall := mkTCall {
+  tc_issuer : string; tc_keys : option (list jwk); tc_tok : token; tc_mid : middle;
+  tc_now0 : Z; tc_now1 : Z
+}.
+
 Inductive input :=
 | IFind (kid use alg : string) (keys : list jwk)
     (* oidc.FindMatchingKey(kid, use, alg, keys...) *)
@@ -20,7 +27,13 @@ Inductive input :=
     (* oidc.CheckSignature several times on ONE rp remote key set instance (cache
        empty at first); before each call the endpoint may serve another list *)
 | IVerifySeq (k : vkind) (v : verifier) (ks : keyset) (steps : list vstep)
-| IProvider (p : provider) (hint : bool) (t : token) (m : middle) (now0 now1 : Z).
+| IProvider (p : provider) (hint : bool) (t : token) (m : middle) (now0 now1 : Z)
+| ITenants (hint : bool) (allowed : list string) (overlap : bool) (calls : list tcall).
+    (* ONE op.NewProvider with a per-request issuer and its DEFAULT key set over a
+       storage whose KeySet depends on the issuer in the context; the verifier the
+       provider hands out for each call's issuer, on that call's token.  overlap:
+       the first call is held inside Storage.KeySet while the others run (their
+       answers may not depend on it: the model has no such input) *)
     (* op.NewProvider(options...) then Provider.IDTokenHintVerifier (hint) or
        Provider.AccessTokenVerifier on one token *)
     (* ONE verifier object (and its storage) reused for several tokens, of
@@ -28,11 +41,15 @@ Inductive input :=
 
 Inductive observed :=
 | OFind (r : find_result)
+| OFindDirty (r : find_result)   (* answered r, but the CALLER's key list was modified *)
 | OSig (r : result string)      (* Ok alg: the algorithm set on the claims *)
 | OVerify (o : outcome)
 | ORemoteSeq (l : list (result string * bool))   (* per call: answer, "a download succeeded" *)
 | OVerifySeq (l : list outcome)
 | OPanic.
+
+Definition tenant_verifier (allowed : list string) (c : tcall) : verifier :=
+  mkVerifier (tc_issuer c) "" 0 0 0 None None allowed.
 
 Definition model (i : input) : observed :=
   match i with
@@ -44,6 +61,10 @@ Definition model (i : input) : observed :=
       (* a verifier keeps no state between calls *)
       OVerifySeq (map (fun s => run_verifier sym_verify k v ks (vs_tok s) (vs_mid s) (vs_now0 s)) steps)
   | IProvider p hint t m now0 _ => OVerify (run_provider_verifier sym_verify p hint t m now0)
+  | ITenants hint allowed _ calls =>
+      OVerifySeq (map (fun c => run_verifier sym_verify (if hint then VIDTokenHint else VAccessToken)
+                                  (tenant_verifier allowed c) (KSOpenID (tc_keys c))
+                                  (tc_tok c) (tc_mid c) (tc_now0 c)) calls)
   end.
 
 (* alg reported with the claims: the header's for token claims, none for
@@ -105,6 +126,18 @@ Fixpoint verify_seq_spec (k : vkind) (v : verifier) (ks : keyset) (steps : list 
   | _, _ => false
   end.
 
+(* multi-tenant provider: every answer is judged against the key set of the
+   issuer of ITS call - whatever other calls are in flight *)
+Fixpoint tenants_spec (hint : bool) (allowed : list string) (calls : list tcall) (obs : list outcome) : bool :=
+  match calls, obs with
+  | [], [] => true
+  | c :: r, o :: ro =>
+      verify_step_ok (if hint then VIDTokenHint else VAccessToken) (tenant_verifier allowed c)
+                     (KSOpenID (tc_keys c)) (tc_tok c) (tc_mid c) o
+      && tenants_spec hint allowed r ro
+  | _, _ => false
+  end.
+
 (* ground truth for provider options: each verifier has ITS OWN configured key
    set and allow-list - the option given for it, else the provider's storage keys *)
 Definition configured_keyset (p : provider) (hint : bool) : keyset :=
@@ -126,6 +159,7 @@ Definition spec (i : input) (o : observed) : bool :=
   | IProvider p hint t m _ _, OVerify o =>
       verify_step_ok (if hint then VIDTokenHint else VAccessToken)
                      (configured_verifier p hint) (configured_keyset p hint) t m o
+  | ITenants hint allowed _ calls, OVerifySeq l => tenants_spec hint allowed calls l
   | _, _ => false
   end.
 
@@ -168,6 +202,9 @@ Definition path (i : input) (o : observed) : nat :=
   | IRemoteSeq _ _ _, ORemoteSeq l =>   (* accepted / downloads, capped *)
       600 + 10 * Nat.min 9 (List.length (filter (fun x => match fst x with Ok _ => true | _ => false end) l))
       + Nat.min 9 (List.length (filter (fun x => snd x) l))
+  | ITenants hint _ overlap _, OVerifySeq l =>
+      900 + (if hint then 20 else 0) + (if overlap then 10 else 0)
+      + Nat.min 9 (List.length (filter (fun o => match o with Reject _ => false | _ => true end) l))
   | IVerifySeq k _ _ _, OVerifySeq l =>
       700 + kind_base k / 10
       + Nat.min 9 (List.length (filter (fun o => match o with Reject _ => false | _ => true end) l))
